@@ -1,5 +1,6 @@
 import PharmpyModel.Core.Expr
 import PharmpyModel.C13.Reader
+import PharmpyModel.C13.ModelLevel
 /-
   Helper lemmas for C13 (core Lean only).
 -/
